@@ -35,6 +35,10 @@ pub enum Strategy {
     Starve(u32),
 }
 
+/// Scheduling steps taken by this process, for the wall-clock watchdog: a run that is slow
+/// (a loaded machine, a recovery of thousands of extents) still moves; a hung one does not.
+pub static PROGRESS: std::sync::atomic::AtomicU64 = std::sync::atomic::AtomicU64::new(0);
+
 #[derive(Clone, Debug, Serialize, Deserialize)]
 pub struct SimConfig {
     pub strategy: Strategy,
@@ -697,6 +701,7 @@ impl Sim {
         }
 
         g.steps += 1;
+        PROGRESS.fetch_add(1, std::sync::atomic::Ordering::Relaxed);
         g.threads[me].parked_at = g.steps;
         if g.steps > g.cfg.max_steps {
             let max = g.cfg.max_steps;
